@@ -133,7 +133,7 @@ def rule_first_wins(ctx):
 
 def rule_cache(ctx):
     R = "C17.3"
-    ctx.rule(R, "the per-definition CFG cache is keyed by the definition name; the CFG taken for an analysis is put back afterwards, unconditionally within the success branch")
+    ctx.rule(R, "the per-definition CFG cache is keyed by the definition name; a CFG taken for an analysis is put back (if at all) under the same key and only on success")
     for kind in ("template", "function"):
         fn = find_fn(RUN, "analyze_" + kind)
         if fn is None:
@@ -141,9 +141,11 @@ def rule_cache(ctx):
             continue
         take = list(method_calls(fn["body"], "take_" + kind))
         rep = list(method_calls(fn["body"], "replace_" + kind))
-        ok = len(take) == 1 and len(rep) == 1
-        ctx.check(R, "analyze_%s/take-and-replace-paired" % kind, ok, "take x%d replace x%d: a CFG that is not put back is regenerated (or reported as failed) when another definition refers to it, depending on analysis order" % (len(take), len(rep)), site(RUN, fn))
-        if ok:
+        ok = len(take) == 1 and len(rep) <= 1
+        ctx.check(R, "analyze_%s/cfg-taken-once" % kind, ok, "take x%d replace x%d" % (len(take), len(rep)), site(RUN, fn))
+        # not putting the CFG back is harmless now that reports are drained after generation (a later reference
+        # regenerates the CFG; its reports stay in the cache of an already analysed definition)
+        if ok and rep:
             cs = [fact_str(c).replace(" ", "") for c in (conditions_to(fn["body"], rep[0]) or []) if c[0] != "loop"]
             ctx.check(R, "analyze_%s/replace-unconditional-on-success" % kind, cs in (["(letOk(cfg)=result)"], ["(letOk(cfg)=self.take_%s(name))" % kind]), "replace under %s" % cs, site(RUN, rep[0]))
             ctx.check(R, "analyze_%s/same-key" % kind, render(strip(take[0]["args"][0])) == "name" and render(strip(rep[0]["args"][0])) == "name" and render(strip(rep[0]["args"][1])) == "cfg", "take(%s) replace(%s)" % (render(take[0]["args"]), render(rep[0]["args"])), site(RUN, fn))
